@@ -1,22 +1,33 @@
 (* C07 — a delegate session can do only what its grants allow, once, and in time.
-   Model: Model/Authz.v (the code after `fix: checkCmd must honour a grant's start time`);
+   Model: Model/Authz.v (the code after `fix: checkCmd must honour a grant's start time`,
+   `fix: a session admitted through authorization grants must not issue grants` and
+   `fix: refuse port forwarding for sessions admitted through authorization grants`);
    proofs: Proofs/AuthzProofs.v.  Histories: grant additions (server API or through an authgrant
    tube), logins, exec / port-forwarding / intent requests in any session at arbitrary clock values.
 
-   The full statement (every action a grant-admitted session starts is covered by a live, matching,
-   unused grant of that session) is REFUTED for the faithful model: the tube switch of
-   hopSession.start hands PFControl / PF / AuthGrant tubes to their handlers without consulting the
-   session's grants (known finding, design-level).  It is proved for exec actions (shell, command),
-   which is what checkCmd guards; the remaining clauses (single use, key-bound, disappearance) are
-   proved in full. *)
+   The full statement - every action a grant-admitted session starts is covered by a live,
+   matching, unused grant of that session - is proved for all histories.  On the tube switch as it
+   was before the last two fixes (`trace_orig`: PFControl / PF / AuthGrant tubes of a grant session
+   handled without consulting its grants) the statement fails; the two witnesses are kept as
+   `..._original_refuted`. *)
 From Hop Require Import Base Authz AuthzProofs.
 Open Scope N_scope.
 
-(* ---- the part that holds: exec actions ---- *)
-Theorem c07_action_needs_live_grant_partial :
-  forall parse ops, all_justified (start_justified scope_exec) (trace parse ops).
-Proof. exact exec_justified. Qed.
-Print Assumptions c07_action_needs_live_grant_partial.
+(* ---- the full statement: every started action (shell, command, port forwarding, grant issuing)
+   of a session admitted through grants is covered by its own live, matching, unused grant ---- *)
+Theorem c07_action_needs_live_grant :
+  forall parse ops, all_justified (start_justified scope_all) (trace parse ops).
+Proof. exact actions_justified. Qed.
+Print Assumptions c07_action_needs_live_grant.
+
+(* in particular such a session never starts port forwarding and never has a grant stored: whatever
+   it starts is a shell or a command *)
+Theorem c07_delegate_starts_only_exec : forall parse ops pre sid a t used post u k ags,
+    trace parse ops = pre ++ EvStart sid a t used :: post ->
+    login_of pre sid = Some (u, k, ViaGrant ags) ->
+    exists cmd shell, a = AExec cmd shell.
+Proof. exact delegate_starts_only_exec. Qed.
+Print Assumptions c07_delegate_starts_only_exec.
 
 (* spelled out: a shell or command started in a session that was admitted through grants used a
    grant g that the session was handed at login, that was stored for exactly the session's user and
@@ -71,18 +82,18 @@ Theorem c07_grants_leave_the_server_at_login : forall parse ops u k st' sid ags,
 Proof. exact grant_consumed_login. Qed.
 Print Assumptions c07_grants_leave_the_server_at_login.
 
-(* target-side intent policy: a further grant is stored through an authgrant tube only if grants
-   are enabled, the intent has not expired, names the session's user, carries a well-formed
+(* target-side intent policy: a further grant is stored through an authgrant tube only if the
+   session was not itself admitted through grants, grants are enabled, the intent has not expired, names the session's user, carries a well-formed
    delegate certificate and a known grant type *)
 Theorem c07_issue_conditions : forall parse st sid i cert_ok wall st' evs,
     step parse st (OIntent sid i cert_ok wall) = (st', evs) ->
     In (EvStart sid (AIssue i) wall None) evs ->
-    exists s, nth_sess (st_sess st) sid = Some s /\ st_enabled st = true /\
+    exists s, nth_sess (st_sess st) sid = Some s /\ s_using s = false /\ st_enabled st = true /\
               (wall <= i_exp i)%Z /\ s_user s = i_user i /\ cert_ok = true /\ 1 <= i_type i <= 4.
 Proof. exact issue_conditions. Qed.
 Print Assumptions c07_issue_conditions.
 
-(* ---- the full statement is refuted ---- *)
+(* ---- on the tube switch before the last two fixes the full statement fails ---- *)
 Definition no_parse (l : bytes) : option key := None.
 Definition alice : user := [97].
 Definition ls : bytes := [108; 115].
@@ -94,19 +105,26 @@ Definition w_pf : list op :=
   [ OSetFile alice FMissing; OEnable true; OAddGrant (Some (mkIntent 2 0 100 alice 7 ls));
     OLogin alice 7; OPF 0 50 ].
 Example c07_w_pf_trace :
-  trace no_parse w_pf =
+  trace_orig no_parse w_pf =
   [EvSetFile alice FMissing; EvEnable true; EvAdded g_ls alice 7; EvLogin 0 alice 7 (ViaGrant [g_ls])]
     ++ EvStart 0 APF 50 None :: [].
 Proof. vm_compute. reflexivity. Qed.
 
-Theorem c07_action_needs_live_grant_refuted :
-  exists ops, ~ all_justified (start_justified scope_all) (trace no_parse ops).
+Theorem c07_action_needs_live_grant_original_refuted :
+  exists ops, ~ all_justified (start_justified scope_all) (trace_orig no_parse ops).
 Proof.
   exists w_pf. intro H.
   pose proof (all_justified_split _ _ H _ _ _ c07_w_pf_trace) as J.
   vm_compute in J. destruct (J eq_refl) as [g [Hn _]]. discriminate Hn.
 Qed.
-Print Assumptions c07_action_needs_live_grant_refuted.
+Print Assumptions c07_action_needs_live_grant_original_refuted.
+
+(* the same history on the code as it is: the request is refused *)
+Example c07_w_pf_now :
+  trace no_parse w_pf =
+  [EvSetFile alice FMissing; EvEnable true; EvAdded g_ls alice 7; EvLogin 0 alice 7 (ViaGrant [g_ls]);
+   EvRefuse 0 APF 50].
+Proof. vm_compute. reflexivity. Qed.
 
 (* witness 2: the same delegate opens an authgrant tube, has a Shell grant for its own key stored,
    reconnects and is given a shell: one command grant became unlimited access *)
@@ -115,23 +133,30 @@ Definition w_issue : list op :=
   [ OSetFile alice FMissing; OEnable true; OAddGrant (Some (mkIntent 2 0 100 alice 7 ls));
     OLogin alice 7; OIntent 0 (mkIntent 1 0 100 alice 7 []) true 50; OLogin alice 7; OExec 1 [] true 60 ].
 Example c07_w_issue_trace :
-  trace no_parse w_issue =
+  trace_orig no_parse w_issue =
   [EvSetFile alice FMissing; EvEnable true; EvAdded g_ls alice 7; EvLogin 0 alice 7 (ViaGrant [g_ls]);
    EvAdded g_sh alice 7]
     ++ EvStart 0 (AIssue (mkIntent 1 0 100 alice 7 [])) 50 None
     :: [EvLogin 1 alice 7 (ViaGrant [g_sh]); EvStart 1 (AExec [] true) 60 (Some g_sh)].
 Proof. vm_compute. reflexivity. Qed.
 
-Theorem c07_grant_issuing_refuted :
+Theorem c07_grant_issuing_original_refuted :
   exists ops pre sid i t post u k ags,
-    trace no_parse ops = pre ++ EvStart sid (AIssue i) t None :: post /\
+    trace_orig no_parse ops = pre ++ EvStart sid (AIssue i) t None :: post /\
     login_of pre sid = Some (u, k, ViaGrant ags) /\
     ~ start_justified scope_all pre (EvStart sid (AIssue i) t None).
 Proof.
   exists w_issue. do 8 eexists. split; [exact c07_w_issue_trace|]. split; [vm_compute; reflexivity|].
   intro J. vm_compute in J. destruct (J eq_refl) as [g [Hn _]]. discriminate Hn.
 Qed.
-Print Assumptions c07_grant_issuing_refuted.
+Print Assumptions c07_grant_issuing_original_refuted.
+
+(* now: the intent is denied, the second login finds no grant, there is no session 1 *)
+Example c07_w_issue_now :
+  trace no_parse w_issue =
+  [EvSetFile alice FMissing; EvEnable true; EvAdded g_ls alice 7; EvLogin 0 alice 7 (ViaGrant [g_ls]);
+   EvRefuse 0 (AIssue (mkIntent 1 0 100 alice 7 [])) 50; EvDenied alice 7; EvNoSession 1].
+Proof. vm_compute. reflexivity. Qed.
 
 (* ---- non-vacuity of c07_exec_needs_live_grant: its premises hold in a concrete history, and the
    grant-time / command / single-use refusals really occur ---- *)
